@@ -346,14 +346,18 @@ def srrDefaultOffsets : List (Int × Int) := [(0, 2), (1, 2)]
 
 /-- `SRRConfig.from_array`: `cls(**{name: array[name]})`.  A raster array has no `warmup` /
 `subpixel_offsets`, the constructor's defaults apply.  Not modelled (`unmodelled`, never generated,
-counted as undetermined by the harness): a raster scan time that is zero or not finite (the warm-up
-becomes `np.round(±inf or nan).astype(int)`), and a spot array (the call succeeds with an
+counted as undetermined by the harness): a raster scan time that is zero, not finite or so small
+that 12.5 s are more than 2⁵² samples (the warm-up becomes `np.round(±inf or nan).astype(int)` or an
+integer the float cannot hold), and a spot array (the call succeeds with an
 array-valued `spotsize`, which `Config` here cannot hold). -/
 def srrFromArray (fl : Rat → Rat) : CfgArr → Except Err Config
   | .srr a b s w o => if o = [] then throw .valueError else pure (.srr (SRR.mk' fl a b s w o))
   | .raster a b c =>
     match c.toRat? with
-    | some s => if s = 0 then throw .unmodelled else pure (.srr (SRR.mk' fl a b s srrDefaultWarmup srrDefaultOffsets))
+    | some s =>
+      -- beyond 2⁵² samples the float quotient is no integer the conversion to `int` could keep (overflow above 2⁶³)
+      if s = 0 ∨ (2 : Rat) ^ 52 * s < srrDefaultWarmup ∧ 0 < s ∨ srrDefaultWarmup < -((2 : Rat) ^ 52) * s ∧ s < 0 then throw .unmodelled
+      else pure (.srr (SRR.mk' fl a b s srrDefaultWarmup srrDefaultOffsets))
     | none => throw .unmodelled
   | .spot .. => throw .unmodelled
 
